@@ -21,7 +21,12 @@ CLAIMS = {
              "fits (capacity_spec), which is at least the README bound (capacity_ge_readme); all blocks and rows lie "
              "inside the slot and do not overlap (capacity_fits). The model's start_update is compared with the real "
              "one on boundary classes and near-fit geometries and on whole sessions at L and L+1 losses; the oracle "
-             "checks accept-iff-legal, no flash access before an error, no panic on the implementation.",
+             "checks accept-iff-legal, no flash access before an error, no panic on the implementation. C15b gives the behavioural clause at flash level as corollaries: complete_at_full_rank_L2 (from a "
+             "lawful stage-1 state with at most capacity(slot, size) data fragments missing, FirmwareComplete is answered "
+             "at exactly the first delivery after which the accepted rows span the missing fragments), "
+             "refuse_iff_over_capacity_L2 (a coded fragment in stage 1 is refused, with updater, device and abstraction "
+             "unchanged, iff more fragments are missing than the capacity; otherwise it is accepted) and "
+             "tolerates_up_to_capacity_L2 (any loss of at most the capacity is tolerated once the delivered rows span it).",
         note="Trusted: Lean kernel, harness/NOR simulator, correspondence. The behavioural part 'tolerates any L losses, "
              "completes at full rank' rests on C03's theorems plus the session correspondence (D5), not on a separate "
              "theorem here. Defect fixed in /repo: size 0 / count 0 / count > 16384 were accepted.",
